@@ -24,7 +24,7 @@ MANIFEST = {
             "through a prefix view; RestoreSnapshot with older views; reverse IterateRange) and the repaired code is what is "
             "modelled; their replays are in corpus/C12. Trusted: pebble iterators obey sorted-map semantics (sampled by the scan "
             "cases), Go map iteration order is irrelevant (proved: results are sorted / order-insensitive), byte slices are not "
-            "mutated by callers after Set (aliasing not modelled). db-level limit 0 returns one element (iterator.go counts after "
+            "mutated by callers is now PROBED (the harness overwrites every buffer passed in or received; two aliasing defects fixed). batchdb modelled (reads = database, written batch = overlay specification). db-level limit 0 returns one element (iterator.go counts after "
             "appending): stated in the theorem, unspecified by the property.",
 }
 IMPORTS = "From LE Require Import Base.Lex Store.SMap Store.PebbleIter Store.DiffDB Store.DiffDBSpec Store.BatchDB Corr.C12."
@@ -263,7 +263,7 @@ def run(ck):
                       "on DB or Reader; non-trivial = non-empty result; distinct by input. corpus/C12 replays run first.")
     ck.extra["traces_validated_against_impl"] = len(recs)
     ck.assume += ["pebble iterators obey sorted-map semantics with [LowerBound, UpperBound) bounds (sampled by the scan cases)",
-                  "callers do not mutate byte slices after passing them to Set / after receiving them from Range (aliasing not modelled)",
+                  "byte strings are immutable values in the model; sharing with caller memory is probed by overwriting every buffer after each call",
                   "the store under a diffdb.Database is not modified between the first staged read and Commit"]
     if ck.tier == "thorough":
         ck.coqchk(["LE.Properties.C12"])
